@@ -1,5 +1,6 @@
 import Pyunicorn.Lemmas.Geo
 import Pyunicorn.Lemmas.GeoError
+import Pyunicorn.Lemmas.GeoRound
 import Pyunicorn.Generated.StructC12
 /-!
 # C12 — Grid distances equal closed-form geometry and are metrics
@@ -334,6 +335,68 @@ example : euclideanDistance realTrig (fun k i => if i = 0 then 0 else if k = 0 t
     = dist (pt (fun k i => if i = 0 then 0 else if k = 0 then 3 else 4) 2 0)
         (pt (fun k i => if i = 0 then (0 : ℝ) else if k = 0 then 3 else 4) 2 1) :=
   euclideanDistance_eq_dist _ 2 2 0 1 (by omega) (by omega)
+
+/-! ## the Euclidean accuracy clause under the standard model of floating point arithmetic
+
+`rEuclKernel rnd pw` (Lemmas/GeoRound) is the *same* model `euclKernel`, instantiated with
+operations that round their exact result: `a ⊕ b = rnd (a + b)`, `a ⊗ b = rnd (a * b)`,
+`a ⊖ b = rnd (a - b)`, and `pw` for `expr ** 0.5`.  `StdRound rnd u` is the standard model
+`|rnd v - v| ≤ u |v|` (IEEE round-to-nearest without overflow / underflow: `u = 2⁻²⁴` for
+float32).  Under it the accuracy of the stored distances is a theorem, for every
+dimension; what remains trusted is that the hardware / `powf` satisfy the model. -/
+
+/-- every entry of the rounded kernel lies within the factors `(1 ∓ w) √((1 ∓ u)^(d+3))`
+of the exact distance `‖x_a − x_b‖`, any dimension `d` -/
+theorem euclidean_entry_rounded {rnd : ℝ → ℝ} {u w : ℝ} (h : StdRound rnd u) (pw : ℝ → ℝ)
+    (hw0 : 0 ≤ w) (hw1 : w ≤ 1) (hpw : ∀ v, 0 ≤ v → |pw v - √v| ≤ w * √v)
+    (x : Nat → Nat → ℝ) (d N a b : Nat) (ha : a < N) (hb : b < N) :
+    (1 - w) * √((1 - u) ^ (d + 3)) * dist (pt x d a) (pt x d b) ≤ rEuclKernel rnd pw x d N a b ∧
+      rEuclKernel rnd pw x d N a b ≤ (1 + w) * √((1 + u) ^ (d + 3)) * dist (pt x d a) (pt x d b) := by
+  rw [rEuclKernel_apply rnd pw x d N a b ha hb]
+  have hd : dist (pt x d a) (pt x d b) = √(sumsq x d (max a b) (min a b)) := by
+    rw [sqrt_sumsq_eq_dist]
+    rcases Nat.le_total a b with h | h
+    · rw [Nat.max_eq_right h, Nat.min_eq_left h, dist_comm]
+    · rw [Nat.max_eq_left h, Nat.min_eq_right h]
+  rw [hd]
+  exact rdist_bounds h pw hw0 hw1 hpw x d _ _
+
+/-- **float32** (`u = 2⁻²⁴`, `powf` within one ulp: `w = 2⁻²³`), up to 6 dimensions: every
+stored distance has relative error at most `2⁻²⁰` — the bound of the property statement
+and of the oracle (`REL_EUC`) -/
+theorem euclidean_entry_accuracy_float32 {rnd : ℝ → ℝ} (h : StdRound rnd (2⁻¹ ^ 24)) (pw : ℝ → ℝ)
+    (hpw : ∀ v, 0 ≤ v → |pw v - √v| ≤ 2⁻¹ ^ 23 * √v)
+    (x : Nat → Nat → ℝ) (d N a b : Nat) (hd : d ≤ 6) (ha : a < N) (hb : b < N) :
+    |rEuclKernel rnd pw x d N a b - dist (pt x d a) (pt x d b)|
+      ≤ 2⁻¹ ^ 20 * dist (pt x d a) (pt x d b) := by
+  have hb' := euclidean_entry_rounded h pw (by norm_num) (by norm_num) hpw x d N a b ha hb
+  have hf := float32_factors d hd
+  have hD : 0 ≤ dist (pt x d a) (pt x d b) := dist_nonneg
+  rw [abs_le]
+  constructor
+  · have := mul_le_mul_of_nonneg_right hf.1 hD
+    linarith [hb'.1]
+  · have := mul_le_mul_of_nonneg_right hf.2 hD
+    linarith [hb'.2]
+
+/-- in particular the diagonal (and every pair of nodes with identical coordinates) is
+exactly zero also in rounded arithmetic -/
+theorem euclidean_rounded_self {rnd : ℝ → ℝ} (h : StdRound rnd (2⁻¹ ^ 24)) (pw : ℝ → ℝ)
+    (hpw : ∀ v, 0 ≤ v → |pw v - √v| ≤ 2⁻¹ ^ 23 * √v)
+    (x : Nat → Nat → ℝ) (d N a : Nat) (hd : d ≤ 6) (ha : a < N) :
+    rEuclKernel rnd pw x d N a a = 0 := by
+  have := euclidean_entry_accuracy_float32 h pw hpw x d N a a hd ha ha
+  rw [dist_self, mul_zero, sub_zero] at this
+  exact abs_eq_zero.1 (le_antisymm this (abs_nonneg _))
+
+/-- the standard model is satisfiable by a non-trivial rounding (here: exact arithmetic and a
+rounding that shrinks by `2⁻²⁵`) -/
+example : StdRound (fun v => v) (2⁻¹ ^ 24) ∧ StdRound (fun v => v * (1 - 2⁻¹ ^ 25)) (2⁻¹ ^ 24) := by
+  refine ⟨⟨by norm_num, by norm_num, fun v => ?_⟩, ⟨by norm_num, by norm_num, fun v => ?_⟩⟩
+  · simp only [sub_self, abs_zero]; positivity
+  · have : v * (1 - 2⁻¹ ^ 25) - v = -(2⁻¹ ^ 25 * v) := by ring
+    rw [this, abs_neg, abs_mul, abs_of_nonneg (by norm_num : (0 : ℝ) ≤ 2⁻¹ ^ 25)]
+    exact mul_le_mul_of_nonneg_right (by norm_num) (abs_nonneg v)
 
 /-! ## nearest-node lookup -/
 
